@@ -39,12 +39,21 @@ def _ends_with_tilde(e):
 
 
 class Roles:
-    def __init__(self, func, seed, tuple_calls=None):
+    def __init__(self, func, seed, tuple_calls=None, tuple_fields=None,
+                 call_roles=None):
         """`tuple_calls`: {callee dotted name: (role, role, ...)} for calls
-        whose result tuple is unpacked position-wise"""
+        whose result tuple is unpacked position-wise; `tuple_fields`:
+        {callee dotted name: [field names]} when that result is a named
+        tuple read by field name; `call_roles(call, roles)`: roles of the
+        value an otherwise unknown call returns (summary of a helper)"""
         self.func = func
         self.roles = {k: set(v) for k, v in seed.items()}
         self.tuple_calls = tuple_calls or {}
+        self.tuple_fields = tuple_fields or {}
+        self.call_roles = call_roles
+        #: name -> (roles per position, field names or None): a whole
+        #: result tuple bound to one name
+        self.struct = {}
         # name -> list of role sets: a collection of k-tuples whose
         # positions carry different roles (``pairs.append((pt, pp))``)
         self.elem_roles = {}
@@ -57,10 +66,25 @@ class Roles:
         if isinstance(expr, ast.Name):
             return set(r.get(expr.id, ()))
         if isinstance(expr, ast.Subscript):
+            if isinstance(expr.value, ast.Name) \
+                    and expr.value.id in self.struct:
+                pos, _f = self.struct[expr.value.id]
+                i = expr.slice.value if isinstance(
+                    expr.slice, ast.Constant) else None
+                if isinstance(i, int) and -len(pos) <= i < len(pos):
+                    return {pos[i]} if pos[i] else set()
+                return set()
             return self.of(expr.value)
         if isinstance(expr, ast.Starred):
             return self.of(expr.value)
         if isinstance(expr, ast.Attribute):
+            if isinstance(expr.value, ast.Name) \
+                    and expr.value.id in self.struct:
+                pos, fields = self.struct[expr.value.id]
+                if fields and expr.attr in fields:
+                    r_ = pos[fields.index(expr.attr)]
+                    return {r_} if r_ else set()
+                return set()
             if expr.attr in DROP_ATTRS:
                 return set()
             return set()
@@ -93,6 +117,10 @@ class Roles:
                         and expr.args and _ends_with_tilde(expr.args[0]):
                     base = {"TEMP" if x == "OUT" else x for x in base}
                 return base
+            if self.call_roles is not None:
+                r_ = self.call_roles(expr, self)
+                if r_:
+                    return set(r_)
             return set()
         return set()
 
@@ -172,6 +200,15 @@ class Roles:
                     v = n.value
                     name = call_name(v) if isinstance(v, ast.Call) else None
                     for t in n.targets:
+                        if name in self.tuple_calls and isinstance(
+                                t, ast.Name):
+                            # the whole result bound to one name
+                            if t.id not in self.struct:
+                                self.struct[t.id] = (
+                                    tuple(self.tuple_calls[name]),
+                                    self.tuple_fields.get(name))
+                                changed = True
+                            continue
                         if name in self.tuple_calls and isinstance(
                                 t, (ast.Tuple, ast.List)):
                             for el, role in zip(t.elts,
